@@ -305,7 +305,7 @@ package server
 // Formatting works on the parse of the text the server holds now (C04: "the formatted text yields the same ..." is a
 // statement about that text; a journal parsed from an older or different text would be rewritten over it).
 //@ func (*Server).Format
-//@   props C04
+//@   props C04 C05
 //@   requires s != nil && params != nil && DocSmall(s, params.TextDocument.URI)
 //@   ensures [C04:absent] !hasDoc(s, params.TextDocument.URI) ==> len(result0) == 0
 //@   modifies s.workspace.cachedFormats
